@@ -327,6 +327,22 @@ func (s *sessionRunner) runPair(calls []sessCall) {
 	rp := p.Call(rq, 90*time.Second)
 	s.r.Count("real_calls", len(calls))
 	s.r.Count("concurrent_pairs_replayed", 1)
+	// two calls that both work in the file system overlap only by luck: such pairs run eight times (the process is
+	// the same: what the first round left behind, the later ones meet)
+	fsOp := func(c sessCall) bool { return c.Op == "mkdir" || c.Op == "verify" }
+	for k := 0; k < 7 && fsOp(calls[0]) && fsOp(calls[1]) && rp.Class == "par" && len(rp.Sub) == len(calls); k++ {
+		ok := true
+		for i, c := range calls {
+			if !reflect.DeepEqual(sessObsOf(c, rp.Sub[i]), *want[i]) {
+				ok = false
+			}
+		}
+		if !ok {
+			break
+		}
+		rp = p.Call(rq, 90*time.Second)
+		s.r.Count("real_calls", len(calls))
+	}
 	if rp.Class != "par" || len(rp.Sub) != len(calls) {
 		s.r.Mismatch("session"+s.build+":concurrent:"+rp.Class, fmt.Sprintf("calls [%s || %s] at the same time: %s %s", calls[0], calls[1], rp.Class, firstLine(rp.Err)),
 			sessReplay{Build: s.build, Session: calls, Concurrent: true})
